@@ -11,7 +11,7 @@ from translators import gen_c17
 
 LEVEL = 'proof'
 HARNESS = os.path.join(vf.VERIF, 'harness/py/c17_enum.py')
-OPNAME = {'C': 'call', 'P': 'call-numpy-int', 'A': 'adapter', 'N': 'call-name', 'G': 'getitem-name', 'I': 'getitem-int', 'F': 'from-string-ci',
+OPNAME = {'AB': 'adapter-declared-before', 'GA': 'getattr-name', 'HC': 'held-members-recheck', 'SW': 'switch-class', 'EM': 'mask-class-as-enum', 'SO': 'spec-only', 'C': 'call', 'P': 'call-numpy-int', 'A': 'adapter', 'N': 'call-name', 'G': 'getitem-name', 'I': 'getitem-int', 'F': 'from-string-ci',
           'L': 'iter', 'K': 'len', 'R': 'reversed', 'IT': 'iter-open-during-conversions', 'RIT': 'reversed-open-during-conversions', 'RT': 'mask-roundtrip', 'B': 'to-bitmask', 'V': 'to-values',
           'MK': 'make-mask', 'MR': 'real-mask', 'ST': 'private-state', 'E': 'enum', 'T': 'synthetic-enum'}
 
@@ -27,8 +27,8 @@ def tok_members(ms):
 # ------------------------------------------------------------------------------------------------------------
 # runners
 
-def run_impl(lines):
-    rc, out, err = vf.run_lines([vf.PY, HARNESS], lines, env=vf.IMPL_ENV, timeout=1500)
+def run_impl(lines, timeout=1500):
+    rc, out, err = vf.run_lines([vf.PY, HARNESS], lines, env=vf.IMPL_ENV, timeout=timeout)
     if rc != 0 or len(out) != len(lines):
         raise RuntimeError('IMPL runner rc=%s, %d answers for %d lines: %s' % (rc, len(out), len(lines), err[-1500:]))
     return out
@@ -43,7 +43,7 @@ def run_model(exe, lines):
 
 def run_jobs(exe, jobs):
     def one(job):
-        return run_impl(job['lines']), run_model(exe, job['lines'])
+        return run_impl(job['lines'], job.get('timeout', 1500)), run_model(exe, job['lines'])
     with ThreadPoolExecutor(vf.NCPU) as ex:
         return list(ex.map(one, jobs))
 
@@ -83,6 +83,8 @@ def snapshot(rng, names, full):
             lines.append('F %s' % p)
     for n in names:                      # lenient conversion of a name that resolves: allowed, changes nothing
         lines.append('N %s 0' % n)
+        if full or rng.random() < 0.5:
+            lines.append('GA %s' % n)    # attribute access: one more public path to the same member
     return lines
 
 
@@ -135,21 +137,21 @@ def value_history(rng, setup, names, values, order, full, hidden_probes):
         r = rng.random()
         if r < 0.25:
             lines.append('C %s 1' % hx(v))
-        kind = rng.choice('AAAPCCCCCCCT')
+        kind = rng.choice('AABBPCCCCCCT')
         if kind == 'T':
             t = rng.choice(['f:', 'u:'] + (['b:'] if v in (0, 1) else []))
             lines.append('C %s%s 0' % (t, hx(v)))
             if t == 'u:':
                 seen_plain.append(v)
         else:
-            lines.append('%s %s 0' % (kind, hx(v)))
+            lines.append('%s %s 0' % ('AB' if kind == 'B' else kind, hx(v)))
             seen_plain.append(v)
         seen.append(v)
         r = rng.random()
         if r < 0.45:
-            c = rng.choice('CCCA')
-            if c == 'A':
-                lines.append('A %s 1' % hx(v))                              # strict after seen
+            c = rng.choice('CCCAB')
+            if c in 'AB':
+                lines.append('%s %s 1' % ('A' if c == 'A' else 'AB', hx(v)))   # strict after seen: field declared now / before
             else:
                 lines.append('C %s 1%s' % (tagged(rng, v, True), rng.choice(('', ' d'))))
         elif r < 0.6:
@@ -167,7 +169,71 @@ def value_history(rng, setup, names, values, order, full, hidden_probes):
         lines.append('C %s 1' % (hx(v) if rng.random() < 0.7 else tagged(rng, v, True)))
     for v in (values if full else rng.sample(values, min(len(values), 64))):
         lines.append('C %s 0' % (hx(v) if rng.random() < 0.7 else tagged(rng, v, True)))
-    lines += ['IT -', 'RIT -', 'L', 'K', 'R', 'ST']
+    lines += ['IT -', 'RIT -', 'L', 'K', 'R', 'HC', 'ST']
+    return lines
+
+
+def mask_enum_values(members):
+    """for a mask class used as an enumeration: integers made only of known bits that are not defined members
+    (0, pairs, all known bits) and integers with a stray bit"""
+    bits = sorted({v for _, v in members if v > 0 and v & (v - 1) == 0})
+    allb = 0
+    for b in bits:
+        allb |= b
+    out = [0, allb, allb | (1 << 40), allb >> 1]
+    out += [a | b for a, b in zip(bits, bits[1:])] + [bits[0] | bits[-1]] if len(bits) > 1 else []
+    known = {v for _, v in members}
+    return [v for v in dict.fromkeys(out) if v not in known]
+
+
+def public_view(rng, members):
+    """the full public view of a class: list, len, reversed, every defined value strictly and leniently, every defined
+    name by [], (), attribute; members held from earlier"""
+    lines = ['L', 'K', 'R']
+    for n, v in members:
+        lines += ['C %s 1' % hx(v), 'C %s 0' % tagged(rng, v, True), 'G %s' % n, 'GA %s' % n]
+        if rng.random() < 0.3:
+            lines += ['N %s 1' % n.lower(), 'AB %s 1' % hx(v)] if 0 <= v < 2 ** 63 else []
+    lines.append('HC')
+    return lines
+
+
+def interleaved_history(rng, group):
+    """several classes alive in one interpreter (state shared between classes must show): operate on one, then
+    re-check the full public view of the others.  group: list of (setup line, switch key, members)"""
+    lines = ['SO 0']
+    for setup, key, members in group:
+        lines += [setup] + public_view(rng, members)[:-1]
+    allvals = sorted({v for _, _, ms in group for _, v in ms})
+    for rnd in range(3):
+        for setup, key, members in group:
+            lines.append('SW ' + key)
+            known = {v for _, v in members}
+            # values this class does not define but another one of the group does, and values nobody defines
+            cand = [v for v in allvals if v not in known] + [rng.randrange(0, 300) for _ in range(4)] + [-1 - rnd, 2 ** 33 + rnd]
+            vs = [v for v in dict.fromkeys(rng.sample(cand, min(len(cand), 6))) if v not in known]
+            for v in vs[:-2]:
+                lines.append('%s %s 0' % (rng.choice(('C', 'C', 'A', 'AB')), hx(v)) if 0 <= v < 2 ** 63 and rng.random() < 0.4 else 'C %s 0' % tagged(rng, v, False))
+                if rng.random() < 0.5:
+                    lines.append('C %s 1' % tagged(rng, v, True))
+            if len(vs) >= 2:
+                lines.append('%s %s' % (rng.choice(('IT', 'RIT')), ','.join(hx(v) for v in vs[-2:])))
+            others = [g for g in group if g[1] != key]
+            for osetup, okey, omembers in (others if rnd == 2 else rng.sample(others, min(2, len(others)))):
+                lines.append('SW ' + okey)
+                lines += public_view(rng, omembers)
+    return lines
+
+
+def mask_class_history(rng):
+    """the helper class the decorator just built (any offset / predicate / define_bits) as an enumeration in its own
+    right: its defined members are recognised, everything else is preserved and flagged"""
+    lines = ['EM', 'L', 'K', 'R']
+    vals = list(range(0, 40)) + [63, 64, 128, 255, 256, 0xffffffff, 1 << 40, -1]
+    rng.shuffle(vals)
+    for v in vals[:28]:
+        lines += ['C %s 1' % hx(v), 'C %s 0' % tagged(rng, v, False), 'C %s 1' % tagged(rng, v, True)]
+    lines += ['G ALL', 'G all', 'G NOPE', 'G A', 'N a 1', 'L', 'K', 'R', 'IT 29,2a', 'HC', 'ST']
     return lines
 
 
@@ -285,6 +351,8 @@ def analyse(lines, impl, mdl, fam, ctx=None):
     observable, ('corr', i, text) for IMPL != MODEL, ('advisory', i, text) for differences in private naming/state"""
     tainted = False
     table_ok = True
+    per_class = {}          # key -> (tainted, table_ok) of the classes alive in this interpreter
+    key, nsyn, nmask = None, 0, 0
     for i, (line, a, b) in enumerate(zip(lines, impl, mdl)):
         op = line.split()[0]
         if ctx:
@@ -292,13 +360,29 @@ def analyse(lines, impl, mdl, fam, ctx=None):
         ap, bp = a.split(' | '), b.split(' | ')
         if a.startswith('harness-error') or b.startswith(('driver-error', '?')) or a in ('?', 'refused-second-history-in-one-interpreter'):
             raise RuntimeError('runner failure on %r: impl=%r model=%r' % (line, a, b))
-        if op in ('E', 'T'):
-            tainted = False
+        if op in ('E', 'T', 'EM', 'SW'):
+            if key is not None:
+                per_class[key] = (tainted, table_ok)
+            if op == 'T':
+                nsyn += 1
+            if op == 'EM':
+                nmask += 1
+            key = {'E': lambda: line.split()[1], 'SW': lambda: line.split()[1], 'T': lambda: 'syn%d' % nsyn, 'EM': lambda: 'mask%d' % nmask}[op]()
+            tainted = per_class.get(key, (False, True))[0] if op == 'SW' else False
             table_ok = b.endswith(' 1')
-            if a.split()[:2] != b.split()[:2]:
-                yield ('corr', i, 'enumeration %r: the class has %s, the generated table %s' % (line, a, b))
+            if (a.split()[:1] != b.split()[:1]) if op == 'SW' else (a.split()[:2] != b.split()[:2]):
+                yield ('corr', i, 'enumeration %r: the class has %s, the model %s' % (line, a, b))
             continue
-        if op in ('C', 'A', 'P', 'N', 'G', 'I', 'F', 'L', 'K', 'R', 'IT', 'RIT'):
+        if op == 'SO':
+            continue
+        if op == 'HC':
+            if ctx:
+                ctx.case(('hc', i), nontrivial=False)
+            if 'BAD:' in a and table_ok and not tainted:
+                yield ('violation', i, {'history': 'values-only', 'op': OPNAME[op], 'class': 'member-handed-out-earlier-changed', 'arg': 'held-member-object'},
+                       a, 'HC (every member handed out earlier unchanged, same object on re-conversion)')
+            continue
+        if op in ('C', 'A', 'AB', 'GA', 'P', 'N', 'G', 'I', 'F', 'L', 'K', 'R', 'IT', 'RIT'):
             impl_raw, impl_pub = ap[0], ap[1]
             mdl_raw, mdl_pub, spec, allowed = bp[0], bp[1], bp[2], bp[3] == '1'
             if ctx:
@@ -316,7 +400,7 @@ def analyse(lines, impl, mdl, fam, ctx=None):
                 # a lenient conversion of an unknown *name* defined a visible member: the property quantifies over
                 # integer conversions only, so this is reported as information, never as a violation or finding
                 yield ('advisory', i, 'outside the property (lenient unknown NAME defines a member): %s gives %r, the values-only SPEC %r' % (OPNAME[op], impl_pub, spec))
-            if impl_raw != mdl_raw:
+            if impl_raw != mdl_raw and mdl_raw != '-':
                 if impl_pub == mdl_pub and impl_pub.startswith('SU'):
                     yield ('advisory', i, 'hidden member naming differs (private): impl %r, model %r' % (impl_raw, mdl_raw))
                 else:
@@ -366,13 +450,29 @@ def analyse(lines, impl, mdl, fam, ctx=None):
 
 
 def run(ctx):
-    info = gen_c17.generate()
+    try:
+        info = gen_c17.generate()
+        ctx.obligation('member tables regenerated from the working tree (translators/gen_c17.py)', True, 'translator')
+        try:
+            json.dump(info, open(os.path.join(vf.BUILD, 'c17_tables_last.json'), 'w'))
+        except Exception:
+            pass
+    except Exception as e:      # a translator failure is a failed obligation; the synthetic part of the search still runs
+        ctx.obligation('member tables regenerated from the working tree (translators/gen_c17.py)', False, 'translator', repr(e)[-800:])
+        ctx.broken_proof('the translator could not regenerate the enum tables: %s' % (repr(e)[-300:],))
+        try:                    # carry on with the tables of the last successful run (Generated/DynEnumTables.v is still that one)
+            info = json.load(open(os.path.join(vf.BUILD, 'c17_tables_last.json')))
+        except Exception:
+            info = {'enums': [], 'masks': [], 'wide': [], 'prefix': HID['prefix'], 'sep': HID['sep'], 'skipped_modules': [], 'internals': []}
     ctx.notes.append('generated: %d enum tables, %d masks, prefix %r, separator %r; 16-bit-wire enums %s; modules not importable %s'
                      % (len(info['enums']), len(info['masks']), info['prefix'], info['sep'],
                         [w.split(':')[1] for w in info['wide']], [m for m, _ in info['skipped_modules']]))
     HID.update(prefix=info['prefix'], sep=info['sep'])
+    pb = getattr(ctx, 'pending_broken', None)
     if not ctx.coq():
         ctx.broken_proof()
+    if pb:
+        ctx.pending_broken = pb
     if ctx.thorough and getattr(ctx, 'coq_ok', False):
         with vf.Lock('coq'):
             rc, so, se = vf.sh('timeout 900 coqchk -o -silent -R theories FEC FEC.Properties.C17', cwd=vf.COQ, timeout=930)
@@ -399,7 +499,7 @@ def run(ctx):
         lines = []
         for key, members in enums:
             names = [n for n, _ in members]
-            vals = base_values + EXTRA_VALUES
+            vals = base_values + EXTRA_VALUES + (mask_enum_values(members) if key in mask_keys else [])
             if h == 0:
                 order = list(vals)
             elif h == 1:
@@ -444,11 +544,54 @@ def run(ctx):
         for key in info['wide']:
             members = dict(enums)[key]
             vals = sorted(set([v + d for _, v in members for d in (-1, 0, 1) if v + d >= 0] + [256, 257, 511, 512, 1023, 4095, 32767, 32768, 65534, 65535]
-                              + [rng.randrange(65536) for _ in range(1500)]))
+                              + [rng.randrange(65536) for _ in range(2600)]))      # > 1024 distinct unknown values on one class
             order = list(vals)
             rng.shuffle(order)
             lines += value_history(rng, 'E ' + key, [n for n, _ in members], vals, order, full=False, hidden_probes=False)
         jobs.append({'family': 'value', 'lines': lines, 'name': 'wide-sample'})
+
+    # ---- every value a 16-bit field can carry, and more than 65536 distinct ones, on ONE class in ONE interpreter
+    # (limits / eviction).  aenum.extend_enum is linear in the class size, so this is the long pole: thorough only, and
+    # the model side runs stateless (SPEC only: the model's lists would make it quadratic a second time).
+    if ctx.thorough and info['wide']:
+        key = info['wide'][0]
+        members = dict(enums)[key]
+        vals = list(range(65536)) + list(range(65536, 65536 + 700))
+        rng.shuffle(vals)
+        lines = ['E ' + key, 'SO 1', 'L', 'K']
+        for j, v in enumerate(vals):
+            lines.append('C %s 0' % hx(v))
+            if j % 4096 == 4095:
+                lines += ['K', 'L', 'R'] + ['C %s 1' % hx(rng.choice(vals[:j])) for _ in range(40)] + ['C %s 1' % hx(w) for _, w in members]
+        lines += ['K', 'L', 'R', 'IT -'] + ['G %s' % n for n, _ in members] + ['C %s 1' % hx(w) for w in rng.sample(vals, 3000)] + ['SO 0']
+        jobs.insert(0, {'family': 'value', 'lines': lines, 'name': 'all-16-bit-values-one-class', 'timeout': 9000})
+
+    # ---- several classes alive side by side: operate on one, re-check the full public view of the others ----
+    everything = [('E ' + k, k, ms) for k, ms in enums]
+    for rep in range(2 if ctx.thorough else 1):
+        pool = list(everything)
+        rng.shuffle(pool)
+        ngroups = 4
+        for g in range(ngroups):
+            lines = []
+            part = pool[g::ngroups]
+            nsyn = 0
+            for j in range(0, len(part), 5):
+                group = list(part[j:j + 5])
+                for t in synthetic_tables(rng, 1)[-1:] + [rng.choice(synthetic_tables(rng, 0)[1:])]:
+                    nsyn += 1
+                    group.append(('T ' + tok_members(t), 'syn%d' % nsyn, t))
+                rng.shuffle(group)
+                # the T lines must be issued in numbering order: renumber after the shuffle
+                k = nsyn - sum(1 for x in group if x[0].startswith('T '))
+                fixed = []
+                for setup, key_, ms in group:
+                    if setup.startswith('T '):
+                        k += 1
+                        key_ = 'syn%d' % k
+                    fixed.append((setup, key_, ms))
+                lines += interleaved_history(rng, fixed)
+            jobs.append({'family': 'interleaved', 'lines': lines, 'name': 'interleaved-%d-%d' % (rep, g)})
 
     # ---- family (c): lenient conversion of unknown names (known finding) ---------------------------------
     for h in range(3 if ctx.thorough else 2):
@@ -482,6 +625,7 @@ def run(ctx):
         lines += ['E ' + m['enum'], 'C 1f 0', 'C -1 0', 'MK %s 1 * %s' % (hx(m['offset']), tok_members(m['base']))]
         lines += mask_lines(rng, members, m['offset'], {v for _, v in m['values']}, ctx.thorough, True)
         lines += ['C 1e 0', 'RT v1,i1e,i1f', 'L', 'K']
+        lines += mask_class_history(rng)
     jobs.append({'family': 'mask', 'lines': lines, 'name': 'mask-real-after-history'})
     syn = [t for t in synthetic_tables(rng, 10 if ctx.thorough else 5)[1:] if max(v for _, v in t) <= 400]   # 1 << (2**40) is not a test
     per = max(1, len(syn) // 4)
@@ -498,6 +642,8 @@ def run(ctx):
                         inc = set(vals) if pred == '*' else {int(x, 16) for x in pred.split(',') if x not in ('-', '')}
                         lines += mask_lines(rng, t, off, inc, False, bool(db))[: (400 if ctx.thorough else 120)]
                         lines += ['C 3f 0', 'RT i3f', 'L']
+                        if rng.random() < 0.5:
+                            lines += mask_class_history(rng)
         jobs.append({'family': 'mask', 'lines': lines, 'name': 'mask-syn-%d' % j})
 
     jobs = [j for j in jobs if j['lines']]
@@ -565,52 +711,82 @@ def run(ctx):
         '`v in Enum`, `Enum.__members__`, dir() are inherited from the stdlib metaclass, expose hidden members after a lenient conversion, and are not observables of this property (not used by the package)']
 
 
-def shrink(exe, lines, idx, fam, want, minimise=True):
-    """shortest history found (setup line + subset of the state-changing lines before idx + the failing line) on which
-    the same event (`want`: a violation signature, or 'corr') still occurs at the last line; bounded number of
-    fresh-interpreter runs"""
-    setup = max(i for i in range(idx + 1) if lines[i].split()[0] in ('E', 'T', 'MR'))
-    head, target, body = [lines[setup]], lines[idx], lines[setup + 1:idx]
-    full = head + body + [target]
+def shrink_from(exe, lines, idx, fam, want, minimise, start):
+    """shortest history found on which the same event (`want`: a violation signature, or 'corr') still occurs at the last
+    line: class-defining and class-switching lines are kept, state-changing lines are removed by delta debugging, all
+    other lines are dropped; bounded number of fresh-interpreter runs"""
+    FIXED = ('E', 'T', 'MR', 'SW', 'EM', 'SO')
+    nbefore = sum(1 for l in lines[:start] if l.split()[0] == 'T')      # synthetic classes are numbered per interpreter
+
+    def renum(l):
+        w = l.split()
+        if w[0] == 'SW' and w[1].startswith('syn'):
+            return 'SW syn%d' % (int(w[1][3:]) - nbefore)
+        return l
+    target = renum(lines[idx])
+    seq = [renum(l) for l in lines[start:idx]]
     if not minimise:
-        return full
+        return seq + [target] if len(seq) < 400 else [l for l in seq if l.split()[0] in FIXED][-40:] + [target]
 
     def mutating(l):
         w = l.split()
         if target.split()[0] in ('RT', 'V', 'B') and w[0] in ('RT', 'V', 'B'):
             return True                  # a helper that remembers earlier calls makes these state-changing too
-        return (w[0] in ('C', 'A', 'P', 'N') and w[-1] == '0') or w[0] in ('MK', 'IT', 'RIT')
-    budget = [18]
+        return (w[0] in ('C', 'A', 'AB', 'P', 'N') and w[-1] == '0') or w[0] in ('MK', 'IT', 'RIT')
+    items = [(l, 'fixed' if l.split()[0] in FIXED else 'mut') for l in seq if l.split()[0] in FIXED or mutating(l)]
+    budget = [22]
 
-    def same(cand):
+    def build(keep):
+        out = [l for j, (l, k) in enumerate(items) if k == 'fixed' or j in keep]
+        # a switch that is immediately followed by another switch does nothing
+        out = [l for j, l in enumerate(out) if not (l.split()[0] == 'SW' and j + 1 < len(out) and out[j + 1].split()[0] in ('SW', 'E', 'T', 'MR', 'EM'))]
+        return out + [target]
+
+    def same(keep):
         budget[0] -= 1
-        ls = head + cand + [target]
+        ls = build(keep)
         try:
             evs = list(analyse(ls, run_impl(ls), run_model(exe, ls), fam))
         except RuntimeError:
             return False
         last = [e for e in evs if e[1] == len(ls) - 1]
         return any((e[0] == 'corr') if want == 'corr' else (e[0] == 'violation' and e[2] == want) for e in last)
-    cur = [l for l in body if mutating(l)]
-    if not same(cur):
-        return full
-    for cand in ([], cur[-1:], [l for l in cur if l.split()[1:2] == target.split()[1:2]]):
-        if len(cand) < len(cur) and same(cand):
-            cur = cand
+    muts = [j for j, (l, k) in enumerate(items) if k == 'mut']
+    cur = list(muts)
+    if not same(set(cur)):
+        return None
+    tv = target.split()[1:2]
+    for cand in ([], cur[-1:], [j for j in cur if items[j][0].split()[1:2] == tv]):
+        if len(cand) < len(cur) and same(set(cand)):
+            cur = list(cand)
             break
     n = 2
     while len(cur) > 1 and budget[0] > 0:
         size = max(1, len(cur) // n)
         for s_ in range(0, len(cur), size):
             cand = cur[:s_] + cur[s_ + size:]
-            if budget[0] > 0 and same(cand):
+            if budget[0] > 0 and same(set(cand)):
                 cur, n = cand, max(n - 1, 2)
                 break
         else:
             if size == 1:
                 break
             n = min(len(cur), n * 2)
-    return head + cur + [target]
+    return build(set(cur))
+
+
+def shrink(exe, lines, idx, fam, want, minimise=True):
+    """see shrink_from: first within the history of the class at hand (or the group of classes alive together); when
+    the event needs what happened to OTHER classes earlier in the same interpreter, over the whole run so far"""
+    if any(l.split()[0] == 'SW' for l in lines[:idx + 1]):
+        start = max([i for i in range(idx + 1) if lines[i] == 'SO 0'] + [0])      # 'SO 0' (a no-op) opens a group of classes
+    else:
+        start = max(i for i in range(idx + 1) if lines[i].split()[0] in ('E', 'T', 'MR'))
+    for st in dict.fromkeys([start, 0]):
+        r = shrink_from(exe, lines, idx, fam, want, minimise, st)
+        if r is not None:
+            return r
+    return lines[start:idx + 1]
 
 
 def replay(ctx, rec):
